@@ -158,6 +158,9 @@ fn fmt_cube(c: &Option<Vec<OptBool>>) -> String {
 // ops common to all kinds
 // ---------------------------------------------------------------------------
 
+/// how `VARS` declares variables (case parameter `addvars`): 0 add_vars, 1 add_named_vars, 2 add_named_vars_from_map
+static ADDVARS_MODE: std::sync::atomic::AtomicU8 = std::sync::atomic::AtomicU8::new(0);
+
 struct Core<F: Function> {
     mref: F::ManagerRef,
     slots: BTreeMap<usize, F>,
@@ -202,7 +205,30 @@ where
         Some(match tok[0] {
             "VARS" => {
                 let k: u32 = tok[1].parse().unwrap();
-                let r = self.mref.with_manager_exclusive(|m| m.add_vars(k));
+                // case parameter addvars=plain|named|map: which of the three entry points declares the variables
+                // (add_vars / add_named_vars / add_named_vars_from_map, the last one with some unnamed variables;
+                // on a manager without variables it takes the "adopt the map" path)
+                let mode = ADDVARS_MODE.load(std::sync::atomic::Ordering::Relaxed);
+                let r = self.mref.with_manager_exclusive(|m| {
+                    let start = m.num_vars();
+                    match mode {
+                        1 => m
+                            .add_named_vars((0..k).map(|i| format!("v{}", start + i)))
+                            .expect("fresh names"),
+                        2 => {
+                            let mut map = oxidd_core::util::VarNameMap::new();
+                            for i in 0..k {
+                                if (start + i) % 3 == 1 {
+                                    map.add_unnamed(1);
+                                } else {
+                                    map.add_named([format!("v{}", start + i)]).expect("fresh names");
+                                }
+                            }
+                            m.add_named_vars_from_map(map).expect("fresh names")
+                        }
+                        _ => m.add_vars(k),
+                    }
+                });
                 Ok(format!("range {} {}", r.start, r.end))
             }
             "NC" => self.get(tok[1]).map(|f| format!("n {}", f.node_count())),
@@ -2118,6 +2144,14 @@ fn main() {
                 let cache = case.param_u64("cache", 1 << 12) as usize;
                 let threads = case.param_u64("threads", 1) as u32;
                 vtrace::set_gc_yield(case.param_u64("gcyield", 0));
+                ADDVARS_MODE.store(
+                    match case.param("addvars") {
+                        Some("named") => 1,
+                        Some("map") => 2,
+                        _ => 0,
+                    },
+                    std::sync::atomic::Ordering::Relaxed,
+                );
                 match case.param("kind").unwrap_or("bdd") {
                     "bdd" => run_bool::<oxidd::bdd::BDDFunction>(case, oxidd::bdd::new_manager(cap, cache, threads), out),
                     "bcdd" => run_bool::<oxidd::bcdd::BCDDFunction>(case, oxidd::bcdd::new_manager(cap, cache, threads), out),
